@@ -127,6 +127,15 @@ def g2_templates(full):
         ("g2:decorators", "@d1\n@d2(3)\ndef f(): pass\n@d1\nclass C: pass\n"),
         ("g2:import", "import a.b as c\nfrom d import e, f as g\nfrom . import h\n"),
         ("g2:lambda_nested", "f = lambda x: lambda y: x + y\n"),
+        ("g2:dead_closure_unused_cell", "def outer(y):\n    def f(x):\n        if 0:\n            def g():\n                return x\n        return y\n    return f\n"),
+        ("g2:dead_closure_after_return", "def outer(y):\n    def f():\n        return y\n        x = 2\n        def g():\n            return x\n    return f\n"),
+        ("g2:complex_edge", "x = (1e999j, -(0.0-2j), (1-0j), 1+0j, -(-1+0j), (1e999-1e999)*1j, -1j, 2.5-0j)\n"),
+        ("g2:except_oneliner", "def f(t):\n    try:\n        g()\n    except OSError: pass\n    while t:\n        if t: break\n"),
+        ("g2:class_twice", "class A: pass\nclass A: pass\n"),
+        ("g2:finally_lambda", "def f(a):\n    try:\n        return a\n    finally:\n        g = lambda: 1\n"),
+        ("g2:finally_genexp", "def f(a):\n    try:\n        if a: return 1\n    finally:\n        s = sum(i for i in a)\n    return s\n"),
+        ("g2:surrogate_unicode_version", "x = '\\ud800\\U0001fae0'\ny = ('\\udfff\\U0001f9ff', '\\U0001fae0')\n"),
+        ("g2:module_dead_lambda", "TRACE = 0 and (lambda frame: frame)\nclass K:\n    T = 0 and (lambda: 1)\n"),
         ("g2:same_line_lambdas", "fs = (lambda x: x - 1, lambda x: x + 1, lambda x: x * 2)\nprint([f(3) for f in fs])\n"),
         ("g2:same_line_comps", "r = [a for a in range(2)] + [a * 2 for a in range(2)]\ns = {k: 1 for k in 'ab'}, {k: 2 for k in 'ab'}\n"),
         ("g2:same_line_defs", "if a: f = lambda: 1\nelse: f = lambda: 2\nclass A: x = lambda self: 1; y = lambda self: 2\n"),
